@@ -30,6 +30,35 @@ LOADINGS = [
 ]
 
 
+def _ushort(l, name, hyp, sym, default=0):
+    for s in ("%s_%s_%s" % (name, hyp, sym), "%s_%s" % (name, sym)):
+        try:
+            return C.c_ushort.in_dll(l, s).value
+        except ValueError:
+            continue
+    return default
+
+
+def elastic_prefix(l, name, hyp):
+    """material properties expected before the declared ones (docs/web/generic-behaviours-interface: same
+    convention as the other interfaces, see mtest/src/GenericBehaviour.cxx)"""
+    d = gbnp.gen.HYP_DIM[hyp]
+    pre = []
+    ortho = _ushort(l, name, hyp, "ElasticSymmetryType") == 1
+    if _ushort(l, name, hyp, "requiresStiffnessTensor"):
+        if not ortho:
+            pre += [150e9, 0.3]
+        else:
+            pre += [150e9, 175e9, 50e9, 0.3, 0.3, 0.3]
+            if d >= 2:
+                pre += [68e9]
+            if d == 3:
+                pre += [72e9, 52e9]
+    if _ushort(l, name, hyp, "requiresThermalExpansionCoefficientTensor"):
+        pre += [1e-5] if not ortho else [1e-5, 1.2e-5, 0.8e-5]
+    return pre
+
+
 def out(line):
     sys.stdout.write(line + "\n")
     sys.stdout.flush()
@@ -72,6 +101,11 @@ def drive(lib, name, seed, nsteps, criterion, perturbation, loadings=None, hyps=
             res["skipped"] = "material properties without default value: %s" % unknown
             return res
         mp = [MP_DEFAULTS[m] for m in b.d["mps"]]
+        # behaviours that require the stiffness / thermal expansion tensors receive the corresponding constants first
+        pre = elastic_prefix(l, name, hyp)
+        if pre:
+            mp = pre + mp
+            b.b.nmp = len(mp)
         n = b.ns
         ax = {"PlaneStress": 2, "AxisymmetricalGeneralisedPlaneStress": 1}.get(hyp)
         hres = {"calls": 0, "ok": 0, "failed": 0, "halvings": 0, "loadings": {}}
